@@ -23,7 +23,8 @@ RULE = (
     "each run draws an underlying async iterator (async generator / class-based with aclose / without aclose / "
     "with asend+athrow) of 0..8 items with suspensions and a history of <=12 ops over {next borrowed, next "
     "underlying, aclose borrowed, aclose via iter(borrowed), asend, hand borrowed to tool T (14 tools) take j then "
-    "close / exhaust / abandon T, re-borrow, drop handle + gc}; oracle: model (cursor, handle open/closed) predicts "
+    "close / exhaust / abandon T, re-borrow, drop handle + gc, a ladder of 2..4 handles each borrowed from the one "
+    "below with any rung advanced / closed in any order}; oracle: model (cursor, handle open/closed) predicts "
     "each result; after every op underlying aclose count == 0 (async generator: still alive unless exhausted) and "
     "its delivery log == items[0:cursor]; a closed handle yields nothing and does not advance the cursor. "
     "Non-trivial: the handle was closed at least once (directly, via iter, by a tool or by gc) and the underlying "
@@ -36,7 +37,7 @@ ASSUMPTIONS = [
     "gc is run at fixed points; finalisers of abandoned generators run as simulator tasks before the next op",
 ]
 PROBES = ("transient_error", "closed_directly", "closed_via_iter", "closed_by_tool", "closed_by_gc", "asend_used", "athrow_on_closed_handle",
-          "underlying_used_after_close", "tool_abandoned", "reborrowed")
+          "underlying_used_after_close", "tool_abandoned", "reborrowed", "handle_ladder")
 
 TOOL_NAMES = ("zip", "map", "filter", "filterfalse", "enumerate", "accumulate", "batched", "chain", "compress",
               "cycle", "dropwhile", "takewhile", "islice", "pairwise", "zip_longest", "tee", "groupby")
@@ -52,6 +53,7 @@ class ModelIter:
         self.items = items
 
     def __iter__(self):
+        self.model["touched"] = True
         return self
 
     def __next__(self):
@@ -84,9 +86,14 @@ def gen(ch):
     sc.src.aclose_suspends = 0
     ops = []
     for n in range(ch.between(1, 12)):
-        kind = ch.weighted([5, 3, 2, 1, 2, 4, 1, 1, 1, 2, 1, 1, 1])
+        kind = ch.weighted([5, 3, 2, 1, 2, 4, 1, 1, 1, 2, 1, 1, 1, 2])
         # 0 next_b 1 next_u 2 close_b 3 close_iter_b 4 asend 5 tool 6 reborrow 7 drop+gc 8 athrow 9 aggregation
         # 10 borrow the handle itself 11 next_b hitting a transient error of the underlying 12 same via next_u
+        # 13 a ladder of 2..4 handles, each borrowed from the one below: advance / close any rung in any order
+        if kind == 13:
+            depth = ch.between(2, 4)
+            ops.append((13, depth, tuple((ch.weighted([3, 2]), ch.draw(depth)) for _ in range(ch.between(1, 7)))))
+            continue
         if kind in (5, 9):
             gt = Gen(ch, cfg, "t%d" % n)
             gt.uid = 1000 * (n + 1)
@@ -102,7 +109,7 @@ def gen(ch):
                     spec.srcs.pop()
                 if spec.p.get("alias"):
                     spec.p["alias"] = None
-                ops.append((5, spec, ch.draw(5), ch.draw(3)))  # tool spec, j, then
+                ops.append((5, spec, ch.draw(5), ch.draw(3), ch.draw(len(spec.srcs))))  # tool spec, j, then, handle position
             else:
                 name = AGG_NAMES[ch.draw(len(AGG_NAMES))]
                 ops.append((9, AGGS[name].gen(gt)))
@@ -176,7 +183,7 @@ def execute(st, ctx):
         for i, op in enumerate(sc.ops):
             kind = op[0]
             name = ("next_b", "next_u", "close_b", "close_iter_b", "asend", "tool", "reborrow", "drop_gc",
-                    "athrow", "agg", "reborrow_handle", "fault_next_b", "fault_next_u")[kind]
+                    "athrow", "agg", "reborrow_handle", "fault_next_b", "fault_next_u", "ladder")[kind]
             if kind == 0:
                 got = await do_next(b)
                 exp = expect_next(True)
@@ -216,14 +223,15 @@ def execute(st, ctx):
                         # forwarding wrapper (which may be unstarted, exhausted or dead from a transient error)
                         exp = expect_next(False)
             elif kind == 5:
-                _, spec, j, then = op
+                _, spec, j, then, hpos = op
                 tname = spec.tool
                 name = "tool:" + tname
                 tool = TOOLS[tname]
                 w = World(sim, own_log=True)
-                others = [make_async_source(w, p).obj for p in spec.srcs[1:]]
+                others = [make_async_source(w, p).obj for n_, p in enumerate(spec.srcs) if n_ != hpos]
+                others.insert(hpos, b)
                 fns = [make_async_fn(w, p).obj if p is not None else None for p in spec.fns]
-                it = tool.a(L, spec, [b] + others, fns)
+                it = tool.a(L, spec, others, fns)
                 del others
                 got_items, got_end = [], None
                 for _ in range(j):
@@ -239,11 +247,13 @@ def execute(st, ctx):
                     del item
                 # model: the stdlib tool over the model's view of the handle
                 model["signalled_stop"] = False
+                model["touched"] = False
                 rw = World()
-                rothers = [make_ref_source(rw, p).obj for p in spec.srcs[1:]]
+                rothers = [make_ref_source(rw, p).obj for n_, p in enumerate(spec.srcs) if n_ != hpos]
+                rothers.insert(hpos, ModelIter(model, items))
                 rfns = [make_ref_fn(rw, p).obj if p is not None else None for p in spec.fns]
                 exp_items, exp_end = [], None
-                rit = iter(tool.r(spec, [ModelIter(model, items)] + rothers, rfns))
+                rit = iter(tool.r(spec, rothers, rfns))
                 for _ in range(j):
                     try:
                         ritem = next(rit)
@@ -255,6 +265,9 @@ def execute(st, ctx):
                         break
                     exp_items.append(ident(ritem))
                 started = j > 0
+                if tname == "chain" and spec.p["form"] == 1:
+                    # chain.from_iterable owns only the members it has fetched: the handle, if it got that far
+                    started = started and model["touched"]
                 if got_end is None:
                     if then == 0 or (then == 1 and tool.infinite):
                         await it.aclose()
@@ -375,6 +388,39 @@ def execute(st, ctx):
                             model["open"] = False
                     else:
                         exp = ("stop",)
+            elif kind == 13:
+                _, depth, steps = op
+                out.probes["handle_ladder"] = 1
+                rungs = [L.borrow(underlying)]
+                for _ in range(depth - 1):
+                    rungs.append(L.borrow(rungs[-1]))
+                is_open = [True] * depth
+                got_l, exp_l = [], []
+                for what, k in steps:
+                    if what == 0:
+                        got_l.append(await do_next(rungs[k]))
+                        # rung k delivers iff every rung from the bottom up to k is still open; the rungs above a
+                        # closed one run off its end and are finished from then on
+                        shut = next((j for j in range(k + 1) if not is_open[j]), None)
+                        if shut is not None:
+                            for j in range(shut, k + 1):
+                                is_open[j] = False
+                            exp_l.append(("stop",))
+                        else:
+                            e = expect_next(False)
+                            if e == ("stop",):
+                                for j in range(k + 1):
+                                    is_open[j] = False
+                            exp_l.append(e)
+                    else:
+                        await rungs[k].aclose()
+                        is_open[k] = False
+                        got_l.append(("closed", k))
+                        exp_l.append(("closed", k))
+                for r in reversed(rungs):
+                    await r.aclose()
+                del rungs, r
+                got, exp = ("ladder", tuple(got_l)), ("ladder", tuple(exp_l))
             elif kind == 6:
                 b = L.borrow(underlying)
                 model["open"] = True
